@@ -311,6 +311,8 @@ func runC18(c *Check) {
 	ruleEveryFlagBound(c, p)
 	c.Doc("C18-R8", "EO+CS: every loader pins the file it reads (SetConfigFile before ReadInConfig) to the path the writer uses: the same constant path elements under the home directory as Config.ConfigPath (no search over names, extensions or expanded directories).")
 	ruleLoaderReadsWrittenFile(c, p)
+	c.Doc("C18-R9", "VP+CS: wherever a flag name is turned into an option key (viper Set / BindPFlag / BindEnv / SetDefault), the key is the name itself or the name with exactly the registered flag prefix removed (TrimPrefix / CutPrefix with the one prefix constant) — no character-set trimming or other rewriting, which mangles some option paths so that their flags are silently ignored.")
+	ruleFlagKeyMapping(c, p)
 	c.Doc("C18-R7", "CS: the text encoder and decoder of every configuration leaf type with its own text codec are an inverse pair of the standard library applied to the whole value, with no transformation in between (what is written is what is read).")
 	ruleTextCodecsInverse(c, p)
 }
@@ -646,4 +648,80 @@ func ruleLoaderReadsWrittenFile(c *Check, p *Prog) {
 		c.Unk(rule, "loaders", "", "", "anchor lost: no function of the configuration package reads a configuration file")
 	}
 	c.MinInstances(rule, 2)
+}
+
+// ruleFlagKeyMapping (C18-R9).
+func ruleFlagKeyMapping(c *Check, p *Prog) {
+	rule := "C18-R9"
+	prefixes := map[string]bool{}
+	n := 0
+	type site struct {
+		fn  *ssa.Function
+		in  ssa.Instruction
+		key *Term
+	}
+	var sites []site
+	for _, fn := range p.Funcs {
+		pk := fnPkg(fn)
+		if pk == nil || pk.Pkg.Path() != configPkg {
+			continue
+		}
+		for _, b := range fn.Blocks {
+			for _, in := range b.Instrs {
+				call, ok := in.(*ssa.Call)
+				if !ok {
+					continue
+				}
+				cn := commonName(call.Common())
+				if !strings.HasSuffix(cn, "viper.Viper).Set") && !strings.HasSuffix(cn, "viper.Viper).BindPFlag") && !strings.HasSuffix(cn, "viper.Viper).BindEnv") && !strings.HasSuffix(cn, "viper.Viper).SetDefault") {
+					continue
+				}
+				if len(call.Common().Args) < 2 {
+					continue
+				}
+				sites = append(sites, site{fn, in, TermOf(call.Common().Args[1], &Ctx{Fn: fn})})
+			}
+		}
+	}
+	for _, st := range sites {
+		n++
+		bad := ""
+		for _, alt := range p.Alternatives(st.key, 1) {
+			a := alt.unconv()
+			// BindEnv's variadic names arrive as a list
+			elems := []*Term{a}
+			if a.Op == "list" {
+				elems = a.Args
+			}
+			for _, e := range elems {
+				e = e.unconv()
+				switch {
+				case e.Op == "const":
+				case e.IsCall("strings.TrimPrefix") && len(e.Args) == 2 && e.Args[1].unconv().Op == "const":
+					prefixes[e.Args[1].unconv().Name] = true
+				case e.Op == "extract" && e.Args[0].IsCall("strings.CutPrefix") && len(e.Args[0].Args) == 2 && e.Args[0].Args[1].unconv().Op == "const":
+					prefixes[e.Args[0].Args[1].unconv().Name] = true
+				case e.Op == "call" || e.Op == "invoke":
+					if strings.HasPrefix(e.Name, "strings.") {
+						bad = e.Name + "(…)"
+					}
+				}
+			}
+		}
+		inst := fnShort(st.fn) + " ⟂ option key ← " + trunc(st.key.String(), 50)
+		if bad == "" {
+			c.OK(rule, inst, fnName(st.fn), p.InstrPos(st.in), "the key is a constant, the name itself, or the name with the flag prefix removed", true)
+		} else {
+			c.Bad(rule, inst, fnName(st.fn), p.InstrPos(st.in), "the option key is derived with "+bad+", which is not an exact prefix removal: option paths that begin with characters of the cut set are mangled and their flags silently ignored (the file then outranks the flag)", nil)
+		}
+	}
+	if len(prefixes) > 1 {
+		c.Bad(rule, "flag-prefix ⟂ one-constant", "", "", fmt.Sprintf("different prefixes are stripped at different sites: %v", sortedKeys(prefixes)), nil)
+	} else if len(prefixes) == 1 {
+		c.OK(rule, "flag-prefix ⟂ one-constant", "", "", "every site strips the same prefix "+sortedKeys(prefixes)[0], true)
+	}
+	if n == 0 {
+		c.Unk(rule, "key-sites", "", "", "anchor lost: no viper Set / Bind call in the configuration package")
+	}
+	c.MinInstances(rule, 3)
 }
